@@ -86,6 +86,9 @@ func main() {
 	verbose := flag.Bool("v", false, "print every obligation")
 	noEvidence := flag.Bool("no-evidence", false, "do not write the evidence file")
 	flag.Parse()
+	if strings.HasPrefix(*prop, "RULE:") {
+		*noEvidence = true // the single-rule debugging mode claims no property: it writes no evidence
+	}
 
 	if *listRules {
 		for _, p := range propSpecs() {
